@@ -175,6 +175,8 @@ def check_case (P, st, devs, plen):
         a = getattr(objs[i], f, MISSING)
         z = getattr(cur, f, MISSING)
         if isinstance(a, bool) and not isinstance(z, str): z = bool(z)
+        if k == "gre" and f == "csum" and a is None and z == 0 and getattr(objs[i], "routing", None) is not None:
+          z = None    # with routing present the checksum/offset word is on the wire; "no checksum" reads back as 0
         ca, cz = canon(a), canon(z)
         if ca != cz:
           c.bad("field:%s.%s%s" % (k, f, elem_label(ca, cz) if f in LABELLED else ""),
